@@ -75,6 +75,10 @@ pub fn idx_topic_frame_id_from_key(key: &[u8]) -> (r: Scru128Id)
     ensures id_bytes(r) == key@.subrange(key@.len() - 16, key@.len() as int),
 { unimplemented!() }
 #[verifier::external_body]
+pub fn idx_context_key_range_end(context_id: Scru128Id) -> (v: Vec<u8>)
+    ensures id_u128(context_id) < u128::MAX ==> v@ == be16((id_u128(context_id) + 1) as u128),
+{ unimplemented!() }
+#[verifier::external_body]
 pub fn idx_context_key_from_frame(frame: &Frame) -> (v: Vec<u8>)
     ensures v@ == fckey(frame),
 { unimplemented!() }
@@ -165,6 +169,47 @@ pub open spec fn stream_wf(st: &St) -> bool {
         && nul_free(topic_bytes(&frame_dec(st.parts.stream[k])))
 }
 pub open spec fn no_storage_error(old_st: &St, new_st: &St) -> bool { new_st.errs == old_st.errs }
+pub open spec fn opt_id(o: Option<&Scru128Id>) -> Option<u128> { match o { Some(l) => Some(id_u128(*l)), None => None } }
+pub open spec fn opt_id_v(o: Option<Scru128Id>) -> Option<u128> { match o { Some(l) => Some(id_u128(l)), None => None } }
+pub open spec fn ctx_bounds_post(ctx: u128, last: Option<u128>, r: (Bound<Vec<u8>>, Bound<Vec<u8>>)) -> bool {
+    &&& r.1 matches Bound::Excluded(e) && (ctx < u128::MAX ==> e@ == be16((ctx + 1) as u128))
+    &&& match last {
+            Some(l) => r.0 matches Bound::Excluded(s) && s@ == ctx_key(ctx, l),
+            None => r.0 matches Bound::Included(s) && s@ == be16(ctx),
+        }
+}
+pub open spec fn all_bounds_post(last: Option<u128>, r: (Bound<Vec<u8>>, Bound<Vec<u8>>)) -> bool {
+    &&& r.1 is Unbounded
+    &&& match last {
+            Some(l) => r.0 matches Bound::Excluded(s) && s@ == be16(l),
+            None => r.0 is Unbounded,
+        }
+}
+// the frame a context-index entry points to (id = key bytes 16..32), if it is still stored
+pub open spec fn live_frame_ctx(st: &St, kv: Kv) -> Option<Frame> {
+    let idb = kv_key(kv).subrange(16, 32);
+    if st.parts.stream.contains_key(idb) { Some(frame_dec(st.parts.stream[idb])) } else { None }
+}
+// C01 / C06 at key level: what iter_frames yields
+pub open spec fn iter_frames_post(st: &St, ctx: Option<u128>, last: Option<u128>, items: Seq<Frame>, src: Seq<Kv>, idx: Seq<int>, b: (Bound<Vec<u8>>, Bound<Vec<u8>>)) -> bool {
+    match ctx {
+        // one context: scans exactly [ctx||last_id (excluded) or ctx (included), ctx+1) of the context index, looks every
+        // entry up by the id in key bytes 16..32 and skips entries whose frame is gone
+        Some(c) => {
+            &&& ctx_bounds_post(c, last, b) && is_scan(src, st.parts.idx_ctx, |k: Seq<u8>| in_range(k, b))
+            &&& idx.len() == items.len()
+            &&& forall|k: int| 0 <= k < items.len() ==> 0 <= #[trigger] idx[k] < src.len() && live_frame_ctx(st, src[idx[k]]) == Some(items[k])
+            &&& forall|k: int, l: int| 0 <= k < l < items.len() ==> #[trigger] idx[k] < #[trigger] idx[l]
+            &&& forall|i: int| 0 <= i < src.len() && (forall|k: int| 0 <= k < items.len() ==> #[trigger] idx[k] != i) ==> live_frame_ctx(st, #[trigger] src[i]) is None
+        },
+        // all contexts: scans the primary partition strictly after last_id and decodes every value
+        None => {
+            &&& all_bounds_post(last, b) && is_scan(src, st.parts.stream, |k: Seq<u8>| in_range(k, b))
+            &&& items.len() == src.len()
+            &&& forall|i: int| 0 <= i < src.len() ==> #[trigger] items[i] == frame_dec(kv_val(src[i]))
+        },
+    }
+}
 pub open spec fn last16(k: Seq<u8>) -> Seq<u8> { k.subrange(k.len() - 16, k.len() as int) }
 // the frame an index entry points to, if it is still stored
 pub open spec fn live_frame(st: &St, kv: Kv) -> Option<Frame> {
@@ -212,7 +257,7 @@ impl Store {
         r is Some <==> st.parts.stream.contains_key(id_bytes(*id)), //# store.get.key_is_id
         r is Some ==> r.unwrap() == frame_dec(st.parts.stream[id_bytes(*id)]), //# store.get.decodes_value
 //@@ prologue
-    broadcast use axiom_key_bytes_arr16v;
+    broadcast use axiom_key_bytes_arr16v, axiom_key_bytes_slice;
 //@@ end
 
 //@@ item file=src/store/mod.rs fn=insert_frame impl=Store ret=r
@@ -252,6 +297,24 @@ impl Store {
             && head_post(kvs.reverse(), st, r), //# store.head.reverse_prefix_scan_first_live
 //@@ prologue
     broadcast use axiom_key_bytes_vec;
+//@@ end
+
+//@@ item file=src/store/mod.rs fn=iter_frames impl=Store ret=r
+//@@ rewrite: Box<dyn Iterator<Item = Frame> + '_> ==> ! Box<SeqIter<Frame>>
+//@@ after_all: fn iter_frames(&self, ==> Tracked(st): Tracked<&St>,
+//@@ closure_spec: .filter_map( ==> -> (o: Option<Frame>) requires $1 is Ok && kv_key($1).len() == 32 ensures o == live_frame_ctx(st, $1)
+//@@ closure_spec: .map( ==> -> (o: Frame) requires $1 is Ok ensures o == frame_dec(kv_val($1))
+//@@ spec
+    requires store_wf(self),
+        forall|k: Seq<u8>| st.parts.idx_ctx.contains_key(k) ==> k.len() == 32,
+        context_id matches Some(c) ==> id_u128(c) < u128::MAX,
+    ensures
+        iter_frames_post(st, opt_id_v(context_id), opt_id(last_id), seq_items(&*r), seq_src(&*r), seq_idx(&*r), seq_bounds(&*r)), //# store.iter_frames.exact_range_lookup
+//@@ prologue
+    broadcast use axiom_key_bytes_vec, axiom_key_bytes_slice, lemma_be16_len, ax_try_into_spec16, axiom_yields_array16;
+    proof { ax_obeys_into16(); }
+//@@ before_stmt?: let frame_id =
+    proof { assert(frame_id_bytes@ == slice_bytes(&key).subrange(16, 32)); assert(frame_id_bytes@.len() == 16); }
 //@@ end
 
 //@@ item file=src/store/mod.rs fn=remove impl=Store ret=r
